@@ -148,6 +148,10 @@ class Exec(ExprMixin, CallMixin):
         if s.value is None:
             return
         v = self.eval(s.value)
+        if v.ty is TNone and "None" in ast.unparse(s.annotation):
+            ty = self.ann_type(s.annotation)
+            if ty is not None:
+                v = self.coerce(v, TOpt(ty), s)
         if v.t is None and isinstance(v.ty, (TList, TSet, TDict)):
             ty = self.ann_type(s.annotation)
             if ty is not None:
@@ -211,6 +215,10 @@ class Exec(ExprMixin, CallMixin):
                 raise Unsupported(f"attribute store on {base.ty}", stmt)
             key, fty = self.field(base.ty.cls, target.attr, stmt)
             place = ("field", base.t, key, fty)
+            if v.py is not None and v.py[0] == "excinst":
+                # an exception object stored in a field: an opaque value
+                inner = fty.inner if isinstance(fty, TOpt) else fty
+                v = self.ctx.fresh(inner, "exc")
             if v.t is None and isinstance(v.ty, (TList, TSet, TDict)):
                 v = self._typed_empty_dict(fty, v) if isinstance(fty, TDict) else self.coerce(v, fty, stmt)
             elif isinstance(v.ty, MUTABLE) and v.place is not None and v.place[0] != "local":
@@ -450,6 +458,13 @@ class Exec(ExprMixin, CallMixin):
                     self.yield_point(s, "lock:" + src)
                 self.ctx.held_locks.append(src)
                 self.ctx.events.append(("acquire", src, list(self.ctx.held_locks)))
+            elif kind == "ready":
+                # `async with cmd.ready_and_okay(mbox)`: waits for admission (yield point); may fail with NO/BAD instead of entering
+                self.yield_point(s, "ready_and_okay")
+                for exc_cls in ("No", "Bad"):
+                    if self.catchable(exc_cls) and self.ctx.choose(2, f"ready-raises-{exc_cls}@{s.lineno}") == 1:
+                        raise PyRaise(SExc(exc_cls, note="from ready_and_okay"))
+                continue
             elif kind == "timeout":
                 self.timeout_depth += 1
                 if isinstance(item.optional_vars, ast.Name):
@@ -915,6 +930,7 @@ class Exec(ExprMixin, CallMixin):
             self.ctx.assume(self_sv.t > 0)
         new_obj = self_sv if constructing is not None else None
         bound = self.bind_args(ct, fi, self_sv, node)
+        self.ctx.used_contracts.add(ct.qualname)
         if any("clock()" in e for e in list(ct.ensures.values()) + list(ct.exc_ensures.values())):
             # the callee reads the wall clock: a fresh, non-decreasing instant for this call
             now = self.ctx.fresh(TReal, "now")
@@ -955,9 +971,13 @@ class Exec(ExprMixin, CallMixin):
                 for k, e in self.reg.classes[ct.cls].invariant.items():
                     pres.append(("inv:" + k, self.truth(self.eval(parse_expr(e)))))
             self.spec_mode = sm
+            assume_pre = ct.fname in (self.cur_contract.ghost.get("assume_pre_of") or [])
             for k, t in pres:
                 if not sm:
-                    c.oblige(f"pre:{self.cur_contract.qualname}:{name}:{k}", t, kind="pre", line=node.lineno)
+                    if assume_pre:
+                        c.assume(t)  # environment assumption, listed in the caller's contract (ghost.assume_pre_of) and in the evidence
+                    else:
+                        c.oblige(f"pre:{self.cur_contract.qualname}:{name}:{k}", t, kind="pre", line=node.lineno)
             # exceptional outcomes
             self.spec_mode = True
             exc_conds = []
